@@ -28,7 +28,7 @@ ASSUMPTIONS = [
     "'meta' (source positions) is only required to survive the round-trip, not compared with the description",
     "extension keys are unique within a binding / signal block",
 ]
-FLOORS = {"after_history": 0.3, "range": 0.05, "unit": 0.05, "signal_block": 0.05, "service": 0.05, "depth_ge2": 0.05}
+FLOORS = {"after_history": 0.25, "range": 0.05, "unit": 0.05, "signal_block": 0.05, "service": 0.05, "depth_ge2": 0.05}
 
 
 def cfg(tier: str) -> S.FullCfg:
